@@ -56,7 +56,10 @@ SamePos(s, o) == o.rp = s.rpos /\ o.wp = s.wpos /\ (FrCheck(s) => o.fr = s.frame
 ErrFlag(o) == o.er # 0
 
 \* successor handle state: positions and error flag are what the (already checked) observation says
-Adopt(s, o) == [s EXCEPT !.rpos = o.rp, !.wpos = o.wp, !.frames = IF FrObs(s) THEN o.fr ELSE Max(s.frames, o.wp), !.err = ErrFlag(o)]
+\* (hostile input can claim any count: the model caps it so that its 32 bit arithmetic stays exact; scenarios never read that far)
+Adopt(s, o) == [s EXCEPT !.rpos = o.rp, !.wpos = o.wp,
+                         !.frames = IF FrObs(s) THEN (IF s.relax THEN Min(o.fr, 1000000) ELSE o.fr) ELSE Max(s.frames, o.wp),
+                         !.err = ErrFlag(o)]
 
 -----------------------------------------------------------------------------
 \* sf_read_short/int/float/double and sf_readf_* (c.T in s i f d; c.unit in i f)
@@ -75,7 +78,8 @@ ReadOK(s, cv, c, o) ==
                 base == s.rpos * s.ch
             IN /\ IF s.relax THEN ri >= 0 /\ ri <= want ELSE ri = want /\ ~ErrFlag(o)
                /\ o.rp = s.rpos + ri \div s.ch /\ o.wp = s.wpos /\ (FrCheck(s) => o.fr = s.frames)
-               /\ Len(o.out) = ri
+               /\ o.outn = ri                                   \* exactly the returned number of items is delivered
+               /\ (~s.relax) => Len(o.out) = ri
                \* (under faults a short transfer can leave the stream misaligned: no data clause then)
                /\ s.relax \/ \A i \in 1..ri : (base + i <= Len(cv.kt) /\ cv.kt[base + i] = c.T) => cv.val[base + i] = o.out[i]
 
@@ -87,24 +91,25 @@ ReadPost(s, cv, c, o) ==
          IN [s |-> Adopt(s, o), cv |-> [cv EXCEPT !.val = v2, !.kt = k2]]
 
 ReadPred(s, cv, c) ==
-    LET same == [rp |-> s.rpos, wp |-> s.wpos, fr |-> s.frames, guard |-> 1, tz |-> 1, out |-> <<>>] IN
+    LET same == [rp |-> s.rpos, wp |-> s.wpos, fr |-> s.frames, guard |-> 1, tz |-> 1, out |-> <<>>, outn |-> 0] IN
     IF c.n = 0 THEN same @@ [ret |-> 0, er |-> IF s.err THEN 1 ELSE 0]
     ELSE IF ReadInvalid(s, c) THEN same @@ [ret |-> 0, er |-> 1]
     ELSE IF s.rpos >= s.frames THEN same @@ [ret |-> 0, er |-> 0]
     ELSE LET want == Min(Items(s, c), (s.frames - s.rpos) * s.ch)  base == s.rpos * s.ch IN
          [ret |-> IF c.unit = "f" THEN want \div s.ch ELSE want, er |-> 0, guard |-> 1, tz |-> 0,
-          out |-> SubSeq(cv.val, base + 1, base + want),
+          out |-> SubSeq(cv.val, base + 1, base + want), outn |-> want,
           rp |-> s.rpos + want \div s.ch, wp |-> s.wpos, fr |-> s.frames]
 
 -----------------------------------------------------------------------------
 \* sf_read_raw: bytes of the data section (sample granular encodings); the model only follows counts and positions
 RawReadOK(s, cv, c, o) ==
-    LET bw == ByteWidth(Sub(s.fmt)) * s.ch IN
+    LET bw == IF s.gran THEN ByteWidth(Sub(s.fmt)) * s.ch ELSE 0 IN
     /\ o.guard = 1
     /\ IF c.n = 0 THEN o.ret = 0 /\ SamePos(s, o)
        ELSE IF s.mode = SFM_WRITE THEN o.ret = 0 /\ ErrFlag(o) /\ SamePos(s, o)
        ELSE IF c.n < 0 \/ s.rpos >= s.frames THEN o.ret = 0 /\ SamePos(s, o)
-       ELSE IF bw = 0 \/ c.n % bw # 0 THEN o.ret = 0 /\ SamePos(s, o) /\ (bw > 0 => ErrFlag(o))
+       ELSE IF bw = 0 THEN o.ret >= 0 /\ o.ret <= c.n /\ o.wp = s.wpos     \* raw access is only specified for sample granular encodings
+       ELSE IF c.n % bw # 0 THEN o.ret = 0 /\ SamePos(s, o) /\ ErrFlag(o)
        ELSE LET want == Min(c.n, (s.frames - s.rpos) * bw) IN
             /\ IF s.relax THEN o.ret >= 0 /\ o.ret <= want ELSE o.ret = want /\ ~ErrFlag(o)
             /\ o.rp = s.rpos + o.ret \div bw /\ o.wp = s.wpos /\ (FrCheck(s) => o.fr = s.frames)
@@ -235,7 +240,8 @@ CmdPost(s, cv, c, o) ==
       [] OTHER -> [s |-> Adopt(s, o), cv |-> cv]
 
 \* SFC_CALC_* / SFC_GET_SIGNAL_MAX: queries -- position, frame count untouched (C17, C18)
-CalcOK(s, cv, c, o) == SamePos(s, o) /\ o.guard = 1
+\* (a hostile file may claim more frames than it holds: the scan cannot seek back then, only the bounds clause remains)
+CalcOK(s, cv, c, o) == (s.relax \/ SamePos(s, o)) /\ o.guard = 1
 
 -----------------------------------------------------------------------------
 \* C04 / C11: what a reader may report for a file that holds N accepted frames of block length B
